@@ -15,6 +15,9 @@
 //   size[4], empty[4], bwd (backward iteration = reverse), frx (find(key) of every position: exceptions [position,id] where it designates another element), cmp, maxfind,
 //   Layer-2 observation: h (stored root height), bal (AVL fields consistent), shape ([parent position,height]...),
 //   kept [checked,bad] (iterators/addresses recorded at first sight still designate the same element), lt lifetime.
+//   C04: every projection tuple has a fifth component, the serial of the stored key instance; ov[4] = instances an empty
+//   container object owns by itself (measured at start-up: its end sentinel), ld = held key/value instances that the
+//   registry does not list as alive, q = live instances at the quiescent point of "fini" (all destroyed), -1 otherwise.
 #include "drv.h"
 #define private public
 #define protected public
@@ -54,7 +57,7 @@ static TMulti* MM[3] = {0, 0, 0};      // containers 3, 4
 static int g_shape = 1;                // log the node-for-node shape (argv[3] = "noshape" turns it off)
 
 // ---- projection store (previous observation of each container)
-struct Ent { int k, v; long id; int addr; const void* node; };
+struct Ent { int k, v; long id; int addr; const void* node; long kid; int alive; };
 struct Proj { Ent* e; int n, cap; int corrupt; };
 static Proj cur[5], prev[5];
 static void proj_reserve(Proj& p, int n)
@@ -65,10 +68,10 @@ static int proj_same(const Proj& a, const Proj& b)
 {
   if(a.n != b.n || a.corrupt != b.corrupt) return 0;
   for(int i = 0; i < a.n; ++i)
-    if(a.e[i].k != b.e[i].k || a.e[i].v != b.e[i].v || a.e[i].id != b.e[i].id || a.e[i].addr != b.e[i].addr) return 0;
+    if(a.e[i].k != b.e[i].k || a.e[i].v != b.e[i].v || a.e[i].id != b.e[i].id || a.e[i].addr != b.e[i].addr || a.e[i].kid != b.e[i].kid) return 0;
   return 1;
 }
-static int ent_same(const Ent& a, const Ent& b) { return a.k == b.k && a.v == b.v && a.id == b.id && a.addr == b.addr; }
+static int ent_same(const Ent& a, const Ent& b) { return a.k == b.k && a.v == b.v && a.id == b.id && a.addr == b.addr && a.kid == b.kid; }
 static void proj_copy(Proj& d, const Proj& s)
 {
   proj_reserve(d, s.n);
@@ -94,6 +97,9 @@ static void kept_reserve(long serial)
 }
 
 enum { MAXIT = 1 << 20 };
+static long g_ov[5] = {0, 0, 0, 0, 0};   // instances owned by an empty container object (per container index)
+static long g_q = -1;
+static int inst_alive(const Tracked& t) { return t.magic == 0x600DF00Du && t.serial > 0 && t.serial < trk_next && trk_state[t.serial] == 1; }
 
 template<class C> struct Acc
 {
@@ -111,6 +117,8 @@ template<class C> struct Acc
       Ent& e = p.e[p.n++];
       const Tracked& val = *i;
       e.k = i.key().value; e.v = val.value; e.id = val.serial; e.node = i.item;
+      e.kid = i.key().serial;
+      e.alive = inst_alive(val) && inst_alive(i.key());
       // address id: cached per element while its node is unchanged (addr_id() searches linearly)
       if(e.id > 0 && e.id < kept_cap && kept[e.id].cont && kept[e.id].item == e.node && kept[e.id].addr == (const void*)&val)
         e.addr = kept[e.id].addrid;
@@ -182,8 +190,8 @@ static void log_proj(const Proj& p)
 {
   fputc('[', g_out);
   for(int i = 0; i < p.n; ++i)
-    fprintf(g_out, i ? ",[%d,%d,%ld,%d]" : "[%d,%d,%ld,%d]", p.e[i].k, p.e[i].v, p.e[i].id, p.e[i].addr);
-  if(p.corrupt) fputs(p.n ? ",[-1,-1,-1,-1]" : "[-1,-1,-1,-1]", g_out);
+    fprintf(g_out, i ? ",[%d,%d,%ld,%d,%ld]" : "[%d,%d,%ld,%d,%ld]", p.e[i].k, p.e[i].v, p.e[i].id, p.e[i].addr, p.e[i].kid);
+  if(p.corrupt) fputs(p.n ? ",[-1,-1,-1,-1,-1]" : "[-1,-1,-1,-1,-1]", g_out);
   fputc(']', g_out);
 }
 
@@ -212,8 +220,8 @@ template<class C> static void finish_event(int c, C** arr, int base, long cmp)
     }
     fprintf(g_out, ",\"n\":%d,\"pre\":%d,\"suf\":%d,\"mid\":[", p.n, pre, suf);
     for(int i = pre; i < p.n - suf; ++i)
-      fprintf(g_out, i > pre ? ",[%d,%d,%ld,%d]" : "[%d,%d,%ld,%d]", p.e[i].k, p.e[i].v, p.e[i].id, p.e[i].addr);
-    if(p.corrupt) fputs(p.n - suf > pre ? ",[-1,-1,-1,-1]" : "[-1,-1,-1,-1]", g_out);
+      fprintf(g_out, i > pre ? ",[%d,%d,%ld,%d,%ld]" : "[%d,%d,%ld,%d,%ld]", p.e[i].k, p.e[i].v, p.e[i].id, p.e[i].addr, p.e[i].kid);
+    if(p.corrupt) fputs(p.n - suf > pre ? ",[-1,-1,-1,-1,-1]" : "[-1,-1,-1,-1,-1]", g_out);
     fputc(']', g_out);
   }
   fputs(",\"ch\":[", g_out);
@@ -284,6 +292,11 @@ template<class C> static void finish_event(int c, C** arr, int base, long cmp)
       if(kp.cont != j || kp.item != e.node || (const void*)viaIt != kp.addr || viaIt->serial != e.id || viaIt->magic != 0x600DF00Du) ++bad;
     }
   fprintf(g_out, ",\"kept\":[%ld,%ld]", checked, bad);
+  long ld = 0;
+  for(int j = 1; j <= 4; ++j)
+    for(int i = 0; i < cur[j].n; ++i) if(!cur[j].e[i].alive) ++ld;
+  fprintf(g_out, ",\"ov\":[%ld,%ld,%ld,%ld],\"ld\":%ld,\"q\":%ld", g_ov[1], g_ov[2], g_ov[3], g_ov[4], ld, g_q);
+  g_q = -1;
   J_LIFETIME();
   j_end();
 }
@@ -424,6 +437,10 @@ void drv_init(int argc, char** argv)
   for(int i = 3; i < argc; ++i) if(!strcmp(argv[i], "noshape")) g_shape = 0;
   trk_reset_registry();
   g_op_timeout = 5;     // one operation (plus its logging) takes microseconds; a longer one is a hang
+  // measure what an empty container object owns (created and destroyed again: the balance must return to zero)
+  { long b = trk_live(); TMap* m = new TMap; g_ov[1] = g_ov[2] = trk_live() - b; delete m; if(trk_live() != b) g_ov[1] = g_ov[2] = -1000; }
+  { long b = trk_live(); TMulti* m = new TMulti; g_ov[3] = g_ov[4] = trk_live() - b; delete m; if(trk_live() != b) g_ov[3] = g_ov[4] = -1000; }
+  trk_reset_registry();
 }
 void drv_fini()
 {
@@ -448,6 +465,7 @@ void drv_apply(const char* op)
   if(!strcmp(op, "fini"))
   { // destroy all four containers (lifetime balance for C04), then start again with empty ones
     drv_fini();
+    g_q = trk_live();
     for(int i = 1; i <= 2; ++i) { M[i] = new TMap; MM[i] = new TMulti; }
     head("fini", c, 0, 0, 0, -2, -1);
     if(c <= 2) finish_event<TMap>(c, M, 0, 0); else finish_event<TMulti>(c, MM, 2, 0);
